@@ -9,7 +9,8 @@ Full statement (FALSE of the real code, see the `_counterexample` theorems):
     for every list `vals` of non-empty values, every earlier lookup sequence and every host,
     parse succeeds and match(host) = true ↔ ∃ v ∈ vals, Matches v host.
 Proved: the same under `Valid v` for every value — after at most one leading dot comes a non-empty name that does not itself
-begin with a dot.  Excluded region: values that begin with two dots (genuine defects: lost values, use-after-free / endless
+begin with a dot.  (The counterexamples are stated for the tree as it is: `rejectsMultiDot = false` is probed by running the
+staged code; a tree with the candidate fix refuses such values instead.)  Excluded region: values that begin with two dots (genuine defects: lost values, use-after-free / endless
 loop in Merge, missed matches) and the single value "." (not covered by the proof; no failure known).
 -/
 import SquidModel.Acl.DomainMerge
@@ -93,18 +94,19 @@ theorem match_order_irrelevant (vals vals' : List Bytes) (hv : ∀ v ∈ vals, V
 
 /-- `acl x dstdomain a ..a`: Merge drops `a` as "covered by" `..a`, and host `a` no longer matches although the value `a`
 matches it. -/
-theorem multi_dot_lost_value_counterexample :
+theorem multi_dot_lost_value_counterexample : Gen.DomainFold.rejectsMultiDot = false →
     verdicts [[97], [46, 46, 97]] [[97]] = some [false] ∧ Matches [97] [97] := by
   decide +kernel
 
 /-- `acl x dstdomain ..a .a`: Merge decides to remove the stored `..a`, `Splay::remove` cannot find it (Compare(`..a`,`..a`)
 is not 0), the string is freed while the tree still points to it. -/
-theorem multi_dot_dangling_counterexample : parse [[46, 46, 97], [46, 97]] = .dangling := by
+theorem multi_dot_dangling_counterexample : Gen.DomainFold.rejectsMultiDot = false →
+    parse [[46, 46, 97], [46, 97]] = .dangling := by
   decide +kernel
 
 /-- `acl x dstdomain .. .`: both are stored (`Compare` does not see the overlap); after a lookup of `a` has
 splayed the tree, host `a.` is not found although `.` matches it. -/
-theorem multi_dot_missed_match_counterexample :
+theorem multi_dot_missed_match_counterexample : Gen.DomainFold.rejectsMultiDot = false →
     verdicts [[46, 46], [46]] [[97], [97, 46]] = some [false, false] ∧ Matches [46] [97, 46] := by
   decide +kernel
 
